@@ -1,0 +1,77 @@
+//go:build verif
+
+// Contracts for contract-based deductive verification (checked by /verif/govc).
+// This file is comment-only and compiled only with the build tag "verif".
+// C03/C12/C01: the eligibility table of cpuAllocationPreferences.
+
+package topologyaware
+
+// ---- the cached pod/container as seen through the cache interfaces (annotations are uninterpreted lookups; --------
+// the lookups themselves are verified in pkg/resmgr/cache, C18) --------------------------------------------------------
+//@ pure ctrNamespace(c cache.Container) string
+//@ pure ctrName(c cache.Container) string
+//@ pure ctrPreserveCPU(c cache.Container) bool
+//@ pure ctrAnn(c cache.Container, key string) string
+//@ pure ctrHasAnn(c cache.Container, key string) bool
+//@ pure podAnn(p cache.Pod, key string, ctr string) string
+//@ pure podHasAnn(p cache.Pod, key string, ctr string) bool
+//@ pure podQOS(p cache.Pod) corev1.PodQOSClass
+//@ iface github.com/containers/nri-plugins/pkg/resmgr/cache.Container.GetNamespace
+//@   ensures result == ctrNamespace(self)
+//@ iface github.com/containers/nri-plugins/pkg/resmgr/cache.Container.GetName
+//@   ensures result == ctrName(self)
+//@ iface github.com/containers/nri-plugins/pkg/resmgr/cache.Container.PreserveCpuResources
+//@   ensures result == ctrPreserveCPU(self)
+//@ iface github.com/containers/nri-plugins/pkg/resmgr/cache.Container.GetEffectiveAnnotation
+//@   ensures result0 == ctrAnn(self, arg0) && result1 == ctrHasAnn(self, arg0)
+//@ iface github.com/containers/nri-plugins/pkg/resmgr/cache.Pod.GetEffectiveAnnotation
+//@   ensures result0 == podAnn(self, arg0, arg1) && result1 == podHasAnn(self, arg0, arg1)
+//@ iface github.com/containers/nri-plugins/pkg/resmgr/cache.Pod.GetQOSClass
+//@   ensures result == podQOS(self)
+//@ iface github.com/containers/nri-plugins/pkg/resmgr/cache.Pod.GetName
+//@   modifies nothing
+// resource requirements: plain getters (the CPU request is read out of them by the function itself)
+//@ iface github.com/containers/nri-plugins/pkg/resmgr/cache.Container.GetResourceUpdates
+//@   modifies nothing
+//@ iface github.com/containers/nri-plugins/pkg/resmgr/cache.Container.GetResourceRequirements
+//@   modifies nothing
+
+// ---- reserved pool namespaces: kube-system, or the first glob that matches (a malformed glob ends the search) ------
+//@ pure nsGlobOK(i int, ns string) bool = filepath.Match(opt.ReservedPoolNamespaces[i], ns).1 == nil
+//@ pure nsGlobHit(i int, ns string) bool = filepath.Match(opt.ReservedPoolNamespaces[i], ns).0
+//@ pure nsReserved(ns string) bool = ns == metav1.NamespaceSystem ||
+//@    (exists i int :: 0 <= i && i < len(opt.ReservedPoolNamespaces) && nsGlobOK(i, ns) && nsGlobHit(i, ns) &&
+//@        (forall j int :: 0 <= j && j < i ==> nsGlobOK(j, ns) && !nsGlobHit(j, ns)))
+//@ func checkReservedPoolNamespaces
+//@   requires opt != nil
+//@   modifies nothing
+//@   ensures[C01,C03] result == nsReserved(namespace)
+//@   ensures[C01] namespace == "kube-system" ==> result
+//@ loop 0 in checkReservedPoolNamespaces at "range opt.ReservedPoolNamespaces"
+//@   invariant namespace != metav1.NamespaceSystem
+//@   invariant forall j int :: 0 <= j && j <= rangeindex ==> nsGlobOK(j, namespace) && !nsGlobHit(j, namespace)
+
+// ---- cpuAllocationPreferences: the documented eligibility table ---------------------------------------------------------
+// reserved class: reserved-CPU annotation true, or a reserved namespace (kube-system, configured globs) without an
+// explicit reserved-CPU annotation
+//@ pure reservedClass(c cache.Container) bool =
+//@    checkReservedCPUsAnnotations(c).0 || (nsReserved(ctrNamespace(c)) && !checkReservedCPUsAnnotations(c).1)
+// shared-preferring: effective prefer-shared-cpus (annotation or configuration) is true, or - the documented default
+// of the multi-core group - a fractional request of two or more CPUs not explicitly annotated prefer-shared-cpus=false
+//@ pure sharedPreferring(p cache.Pod, c cache.Container, req int) bool =
+//@    sharedCPUsPreference(p, c).0 || (req / 1000 >= 2 && req % 1000 > 0 && sharedCPUsPreference(p, c).1 != prefAnnotated)
+//@ pure noExclusive(p cache.Pod, c cache.Container, req int) bool =
+//@    ctrPreserveCPU(c) || reservedClass(c) || podQOS(p) == corev1.PodQOSBurstable || podQOS(p) == corev1.PodQOSBestEffort ||
+//@    req / 1000 == 0 || sharedPreferring(p, c, req)
+// $t12 is the container's CPU request in milli-CPU as read by the function (int(request.MilliValue()), line 378).
+//@ func cpuAllocationPreferences
+//@   requires pod != nil && container != nil && opt != nil
+//@   ensures[C03] noExclusive(pod, container, $t12) ==> result0 == 0
+//@   ensures[C03] !noExclusive(pod, container, $t12) ==> result0 == $t12 / 1000
+//@   ensures[C03] podQOS(pod) == corev1.PodQOSBestEffort && !ctrPreserveCPU(container) && !reservedClass(container) ==> result0 == 0 && result1 == 0
+//@   ensures[C03] !(podQOS(pod) == corev1.PodQOSBestEffort && !ctrPreserveCPU(container) && !reservedClass(container)) ==> 1000 * result0 + result1 == $t12
+//@   ensures[C03] $t12 >= 0 ==> result0 >= 0 && result1 >= 0
+//@   ensures[C03] $t12 >= 0 && result2 ==> result0 > 0
+//@   ensures[C12] ctrPreserveCPU(container) ==> result3 == cpuPreserve
+//@   ensures[C01] !ctrPreserveCPU(container) ==> (result3 == cpuReserved <==> reservedClass(container))
+//@   ensures[C01] !ctrPreserveCPU(container) && !reservedClass(container) ==> result3 == cpuNormal
